@@ -327,23 +327,23 @@ func c02Judge(res *vlib.Result, t *c02Transcript, mk func() *stream.Stream, R st
 	for i, d := range delivered {
 		if i >= len(exp) {
 			res.Violate(key("extra-message"), "dir=%s: receiver delivered %d messages, only %d were sent (extra: %q)", t.dir, len(delivered), len(exp), trunc(d))
-			res.Outcome("VIOLATION-extra")
+			res.Outcome("finding-extra")
 			return
 		}
 		if !bytes.Equal(d, exp[i]) {
 			res.Violate(key("altered-message"), "dir=%s: message %d delivered as %q, sent %q (fault at wire offset %d, message %d)", t.dir, i, trunc(d), trunc(exp[i]), pos, k)
-			res.Outcome("VIOLATION-altered")
+			res.Outcome("finding-altered")
 			return
 		}
 	}
 	if rerr == nil {
 		res.Violate(key("no-error"), "dir=%s: no receive error at all after a fault at wire offset %d", t.dir, pos)
-		res.Outcome("VIOLATION-noerror")
+		res.Outcome("finding-noerror")
 		return
 	}
 	if len(delivered) > k {
 		res.Violate(key("late-error"), "dir=%s: fault at wire offset %d first affects message %d but %d messages were delivered before the error (%v)", t.dir, pos, k, len(delivered), rerr)
-		res.Outcome("VIOLATION-late")
+		res.Outcome("finding-late")
 		return
 	}
 	res.Outcome(fmt.Sprintf("error-after-%d-of-%d", len(delivered), k))
